@@ -5,6 +5,7 @@ package main
 
 import (
 	"bytes"
+	"encoding/hex"
 	"encoding/json"
 	"fmt"
 	"image"
@@ -192,6 +193,31 @@ func rbTLVBody(sc rbScenario, setup *ref.SetupClient, vc *ref.VerifyClient, rng 
 	switch sc.Cls {
 	case "twin_closed":
 		return enc // the correct start request
+	case "degenerate_key":
+		// a well-formed message whose public key is a degenerate group element
+		var t ref.TLV
+		if sc.Ep == "pair-verify" {
+			// a start request (in every state) with a Curve25519 point of low order
+			lo := []string{
+				"0000000000000000000000000000000000000000000000000000000000000000",
+				"0100000000000000000000000000000000000000000000000000000000000000",
+				"e0eb7a7c3b41b8ae1656e3faf19fc46ada098deb9c32b1fd866205165f49b800",
+				"5f9c95bca3508c24b1d0b1559c83ef5b04445cc4581c8e86d8224eddd09f1157",
+				"ecffffffffffffffffffffffffffffffffffffffffffffffffffffffffffff7f",
+				"edffffffffffffffffffffffffffffffffffffffffffffffffffffffffffff7f",
+				"eeffffffffffffffffffffffffffffffffffffffffffffffffffffffffffff7f",
+			}
+			k, _ := hex.DecodeString(lo[v%len(lo)])
+			t.AddByte(ref.TagState, 1)
+			t.Add(ref.TagPublicKey, k)
+			return t.Encode()
+		}
+		// pair-setup: a verify request whose SRP public key is 0 modulo the group's prime (0, or 384 bytes of zeros / 0xff)
+		a := [][]byte{{0}, make([]byte, 384), bytes.Repeat([]byte{0xff}, 384), {}}[v%4]
+		t.AddByte(ref.TagState, 3)
+		t.Add(ref.TagPublicKey, a)
+		t.Add(ref.TagProof, rnd(64))
+		return t.Encode()
 	case "garbage":
 		return rnd([]int{1, 2, 3, 17, 255, 256, 300, 1000}[v%8])
 	case "truncated":
